@@ -276,6 +276,26 @@ func selftest(verbose bool) error {
 		}
 		expect("field-method-call/"+tc.fn, len(callsOnFieldMethod(f, "keys", "Delete")) > 0, tc.bad)
 	}
+	for _, tc := range []struct {
+		fn  string
+		bad bool
+	}{{"PairOk", false}, {"PairBad", true}} {
+		f := u.Func(fx, tc.fn)
+		if f == nil {
+			return fmt.Errorf("fixture %s missing", tc.fn)
+		}
+		expect("acquire-release/"+tc.fn, len(unreleasedAcquires(f)) > 0, tc.bad)
+	}
+	for _, tc := range []struct {
+		fn  string
+		bad bool
+	}{{"AtomicOk", false}, {"AtomicBad", true}} {
+		f := u.Func(fx, tc.fn)
+		if f == nil {
+			return fmt.Errorf("fixture %s missing", tc.fn)
+		}
+		expect("atomic-value/"+tc.fn, len(atomicValueStoresOfInterfaces(f)) > 0, tc.bad)
+	}
 	if len(fails) > 0 {
 		return fmt.Errorf("%s", strings.Join(fails, "; "))
 	}
